@@ -591,9 +591,11 @@ def draw_geometry(draw, n, kind, place_full=True):
         elif c == "on_u":
             v = u
         elif c == "ulp_in_l":
-            v = float(np.nextafter(l, math.inf))
+            # one ulp inside; for a bound at exactly 0 a hair of 1e-100 (a gap whose square underflows, < 1e-150, is the
+            # known finding 'subnormal-gap' of C07: pinned replays only)
+            v = float(np.nextafter(l, math.inf)) if l != 0.0 else 1e-100
         elif c == "ulp_in_u":
-            v = float(np.nextafter(u, -math.inf))
+            v = float(np.nextafter(u, -math.inf)) if u != 0.0 else -1e-100
         elif c == "near_l":
             v = l + f * d
         elif c == "near_u":
